@@ -54,6 +54,32 @@ func (rn *c08Run) keys() []string {
 		return []string{"\x01", "\x02" + P + a, "\x02" + P + b, "\x03"}
 	case "tail3":
 		return []string{P + a, P + b, P + b + "\xff"}
+	case "fan12":
+		// the run ends at a node with 12 distinct next bytes: a 257-bit node at the root
+		var ks []string
+		for i := 0; i < 12; i++ {
+			c := byte(0x11 + 0x13*i)
+			if rn.Ending == "lo" {
+				c = byte(0x60 + i) // same high nibble: the run ends on a half byte for 17-bit nodes
+			}
+			ks = append(ks, P+string([]byte{c})+"x")
+		}
+		return ks
+	case "fan12-under-big":
+		// 257-bit root, the run hangs under its first label and ends at a second 257-bit node
+		var ks []string
+		for i := 0; i < 12; i++ {
+			c := byte(0x11 + 0x13*i)
+			if rn.Ending == "lo" {
+				c = byte(0x60 + i)
+			}
+			ks = append(ks, "\x01"+P+string([]byte{c})+"x")
+		}
+		for i := 0; i < 12; i++ {
+			ks = append(ks, string([]byte{byte(0x20 + 0x11*i)}))
+		}
+		sort.Strings(ks)
+		return ks
 	}
 	panic("variant")
 }
@@ -158,7 +184,7 @@ type c08Unit struct {
 func runC08(r *h.Run) {
 	thorough := r.Tier == "thorough"
 	sp := newSpaceCtx(r.Seed)
-	r.Rule = "(i) every key SEQUENCE (ordered, repetitions allowed) of length <= 4 (quick) / 5 (thorough) over U(Sigma4,2) x 4 prefix modes x {values, nil}; (ii) valid lists of 8..200 keys with one injected order violation (duplicate, swapped neighbours, key followed by its own prefix, 0x7f/0x80 signed-order inversion) at EVERY index, and two violations at every pair of indexes (n <= 40); (iii) lists whose single-branch run is r bytes long for every r of the tier's range, ending on a high- and a low-nibble difference, at the root, under an inner node and with a tail key; oracle: strictly ascending <=> accepted, rejected => ErrKeyOutOfOrder and nil trie, accepted => every own key is found with its value; beyond the documented 16 KiB either outcome is allowed but never silent loss. Distinct by construction; non-trivial = at least 2 keys"
+	r.Rule = "(i) every key SEQUENCE (ordered, repetitions allowed) of length <= 4 (quick) / 5 (thorough) over U(Sigma4,2) x 4 prefix modes x {values, nil}; (ii) valid lists of 8..200 keys with one injected order violation (duplicate, swapped neighbours, key followed by its own prefix, 0x7f/0x80 signed-order inversion) at EVERY index, and two violations at every pair of indexes (n <= 40); (iii) lists whose single-branch run is r bytes long for every r of the tier's range, ending on a high- and a low-nibble difference, at the root, under an inner node, with a tail key, and ending at a 12-way fan-out (257-bit node) at the root and under a 257-bit root; oracle: strictly ascending <=> accepted, rejected => ErrKeyOutOfOrder and nil trie, accepted => every own key is found with its value; beyond the documented 16 KiB either outcome is allowed but never silent loss. Distinct by construction; non-trivial = at least 2 keys"
 	r.Assumptions = []string{"documented key length limit = 16 KiB (README)", "a refusal (error or panic) of an over-limit input is tolerated, a lost key is not"}
 	r.Bounds["alphabet"] = fmt.Sprintf("%x", sp.sigma)
 	maxLen := 4
@@ -305,7 +331,7 @@ func runC08(r *h.Run) {
 	r.Phase("run-lengths", func(emit func(u interface{}) bool) {
 		for _, x := range runs {
 			for _, e := range []string{"hi", "lo"} {
-				for _, v := range []string{"root", "inner", "tail3"} {
+				for _, v := range []string{"root", "inner", "tail3", "fan12", "fan12-under-big"} {
 					if (v != "root") && !(x <= 64 || x%257 == 0 || x >= 16380) {
 						continue
 					}
